@@ -70,7 +70,7 @@ class FileParser(object):
                 logger.debug("Exiting loop err={}".format(e))
                 raise StopIteration
 
-            if sync == Chapter11.SYNC_WORD:
+            if sync == Chapter11.SYNC_WORD and pkt_len > 0:
                 in_sync = True
             else:
                 self._offset += 1
